@@ -62,6 +62,7 @@ type vrun struct {
 	cancels      map[int]context.CancelFunc // per task
 	pkgAddr      []sourceaddrs.RemotePackage
 	regAddr      []regaddr.ModulePackage
+	staticDiags  map[string]sourcebundle.Diagnostics
 	diagsSeen    map[string][]string // diag id -> where it was delivered ("tracer", "add:<i>")
 	emitted      []emitted
 	probe        bool
@@ -74,6 +75,7 @@ type vrun struct {
 
 type emitted struct {
 	ID, Sev, File, Ctx string
+	Dir                string // package directory the finder was looking at
 	Pkg                int
 	Task               int
 	Seq                int
@@ -417,7 +419,7 @@ func (r *vrun) find(name string, fsys fs.FS, subPath string, deps *sourcebundle.
 	var diags sourcebundle.Diagnostics
 	if c.Fault == "err-diag" {
 		d := simDiag{sev: sourcebundle.DiagError, id: fmt.Sprintf("fault-find-%d", c.N)}
-		r.emitted = append(r.emitted, emitted{ID: d.id, Sev: "E", Task: c.Task, Seq: c.Seq, Pkg: -1})
+		r.emitted = append(r.emitted, emitted{ID: d.id, Sev: "E", Task: c.Task, Seq: c.Seq, Pkg: -1, Dir: dir})
 		diags = append(diags, d)
 	}
 	b, err := fs.ReadFile(fsys, path.Join(subPath, depsFileName(name)))
@@ -427,6 +429,7 @@ func (r *vrun) find(name string, fsys fs.FS, subPath string, deps *sourcebundle.
 	}
 	type decl struct{ kind, addr, constr, finder string }
 	var decls []decl
+	nDeclared, firstID := 0, ""
 	twice := false
 	for _, line := range strings.Split(string(b), "\n") {
 		f := strings.Split(line, "\t")
@@ -442,7 +445,11 @@ func (r *vrun) find(name string, fsys fs.FS, subPath string, deps *sourcebundle.
 					sev = sourcebundle.DiagError
 				}
 				d := simDiag{sev: sev, id: f[2], file: f[3], ctx: f[4]}
-				r.emitted = append(r.emitted, emitted{ID: d.id, Sev: f[1], File: f[3], Ctx: f[4], Task: c.Task, Seq: c.Seq, Pkg: -1})
+				nDeclared++
+				if firstID == "" {
+					firstID = d.id
+				}
+				r.emitted = append(r.emitted, emitted{ID: d.id, Sev: f[1], File: f[3], Ctx: f[4], Task: c.Task, Seq: c.Seq, Pkg: -1, Dir: dir})
 				diags = append(diags, d)
 			}
 		case "twice":
@@ -491,6 +498,18 @@ func (r *vrun) find(name string, fsys fs.FS, subPath string, deps *sourcebundle.
 		}
 	}
 	c.Result = fmt.Sprintf("deps=%d diags=%d", len(decls), len(diags))
+	// a finder may keep its diagnostics as static values: the same declared warnings come back
+	// as the same slice, backing array included, every time
+	if len(diags) > 0 && len(diags) == nDeclared && strings.HasPrefix(firstID, "diag-shared-") {
+		if prev, ok := r.staticDiags[firstID]; ok && len(prev) == len(diags) {
+			r.out.Probe("finder-returned-its-static-diagnostics-again")
+			return prev
+		}
+		if r.staticDiags == nil {
+			r.staticDiags = map[string]sourcebundle.Diagnostics{}
+		}
+		r.staticDiags[firstID] = diags
+	}
 	return diags
 }
 
